@@ -29,6 +29,8 @@ def run(ctx, rep):
     image_new(prog, rep)
     pixel_and_draw(prog, rep)
     contiguous_count(prog, rep)
+    from rules import axis
+    axis.run_for(prog, rep, 'R09.5', ['src/image'], 'image data is addressed as row * width + column and sub images are cut per axis')
     import witness
     witness.check(rep, "W09", ["W09Short", "W09Long", "W09Exact"])
 
